@@ -74,6 +74,7 @@ def sp_isinstance_of(ex, args, kwargs, node):
 def make_grid(ex, name, env, **kw):
     g = Obj("Grid")
     g.fields["source_grid_spec"] = Opaque(name=name + ".source_grid_spec")
+    g.fields["_source_dims_dict"] = Opaque(name=name + "._source_dims_dict")
     g.fields["_ds"] = SymDict(name + "._ds", closed=False, owner="self")
     return g
 
@@ -843,6 +844,99 @@ def sp_ds_frame(ex, args, kwargs, node):
     return E.and_vals(out)
 
 
+@method("UxDataArray", "data")
+def uxda_data(ex, base, node, env, fr):
+    return base.fields["values"]
+
+
+@method("UxDataArray", "call:rename")
+def uxda_rename(ex, obj, args, kwargs, node, env, fr):
+    """DataArray.rename({old: new}): the same values under renamed dimensions; the uxarray hooks keep the grid (assumed: C10)"""
+    trusted(ex, "UxDataArray.rename(mapping): same values / name / grid, dimensions renamed (xarray + the C10 re-attachment hooks)")
+    (m,) = args
+    if not isinstance(m, dict) or not isinstance(obj.fields.get("dims"), tuple):
+        raise Unsupported("rename with a symbolic mapping")
+    o = Obj("UxDataArray")
+    o.fields.update(obj.fields)
+    o.fields["dims"] = tuple(m.get(d, d) for d in obj.fields["dims"])
+    return o
+
+
+@method("SymDict", "call:copy")
+def symdict_copy(ex, obj, args, kwargs, node, env, fr):
+    """Dataset.copy(deep=...) of a grid's dataset in abstract mode: an uninterpreted value determined by the dataset (as it is at the
+    time of the call) and the flags; python-dict copies keep their precise model"""
+    if obj.ghost.get("ident") is None or not ex.abstract:
+        raise Unsupported("copy() of a symbolic mapping")
+    trusted(ex, "Dataset.copy(**flags) of the grid's dataset: a function of the dataset at the time of the call and of the flags")
+    return abs_value(ex, "meth:Dataset.copy", [as_opt(obj.ghost["ident"], "ds")] + list(args), kwargs)
+
+
+F_CTOR = z3.Function("ctor_args", USORT, USORT)
+
+
+def construct_abstract(ex, clsname, args, kwargs):
+    """abstract mode: Class(args) yields a NEW object (distinct from None and from every object seen so far on this path) that
+    remembers what it was constructed from: ctor_args(o) == (class, args, keywords)"""
+    trusted(ex, "abstract mode: constructing an unmodelled class yields a new object that records its constructor arguments")
+    o = Opaque(name="new_" + clsname.split(".")[-1])
+    ex.assume(o.term != NONE_U)
+    seen = getattr(ex.st, "_known_idents", None)
+    if seen is None:
+        seen = ex.st._known_idents = []
+    for x in seen:
+        ex.assume(o.term != x)
+    seen.append(o.term)
+    # ... and from the objects that were passed in
+    for pv in (getattr(ex.st, "param_objs", None) or {}).values():
+        if isinstance(pv, Obj):
+            ex.assume(o.term != pv.ident)
+        elif isinstance(pv, Opaque):
+            ex.assume(o.term != pv.term)
+    ex.assume(F_CTOR(o.term) == _ctor_term(clsname, args, kwargs))
+    o.ghost["truth"] = z3.BoolVal(True)
+    return o
+
+
+def _ctor_term(clsname, args, kwargs):
+    kw = sorted(kwargs)
+    name = "ctor:" + clsname.split(".")[-1] + ("|" + ",".join(kw) if kw else "")
+    terms = [uterm(a) for a in args] + [uterm(kwargs[k]) for k in kw]
+    return _uf(name, len(terms))(*terms) if terms else z3.Const("uf_" + name, USORT)
+
+
+@spec("constructed")
+def sp_constructed(ex, args, kwargs, node):
+    """constructed(o, 'Class', a, b, kw=c): o is an object built by Class(a, b, kw=c)"""
+    o, cls = args[0], args[1]
+    return F_CTOR(uterm(o)) == _ctor_term(cls, list(args[2:]), dict(kwargs))
+
+
+@spec("lib_ref")
+def sp_lib_ref(ex, args, kwargs, node):
+    """lib_ref('numpy.mean'): the library function object itself (as passed around as a callable)"""
+    return V.ModRef(args[0])
+
+
+@spec("meth")
+def sp_meth(ex, args, kwargs, node):
+    """meth('query', obj, a, b, k=c): value of the (abstracted) method call obj.query(a, b, k=c)"""
+    return abs_value(ex, "meth:" + args[0], list(args[1:]), dict(kwargs))
+
+
+@spec("getitem")
+def sp_getitem(ex, args, kwargs, node):
+    """getitem(x, i, j, ...): value of the (abstracted) subscript x[i, j, ...]"""
+    return abs_value(ex, "getitem", [args[0], tuple(args[1:])], {})
+
+
+@spec("dscopy")
+def sp_dscopy(ex, args, kwargs, node):
+    """dscopy(grid._ds, deep=True): value of Dataset.copy(**flags) of the grid's dataset"""
+    d = args[0]
+    return abs_value(ex, "meth:Dataset.copy", [as_opt(d.ghost["ident"], "ds")] + list(args[1:]), dict(kwargs))
+
+
 @method("SymDict", "call:items")
 def symdict_items(ex, obj, args, kwargs, node, env, fr):
     if obj.closed and all(p is True for p, _ in obj.entries.values()):
@@ -895,6 +989,17 @@ def _da_max(ex, obj, args, kwargs, node, env, fr):
 
 
 METHODS[("DataArray", "call:max")] = _da_max
+
+
+def _arr_max(ex, obj, args, kwargs, node, env, fr):
+    if args or kwargs or obj.rank != 1 or obj.kind != "real":
+        raise Unsupported(".max() of something else than a 1-D real array")
+    o = Obj("DataArray")
+    o.fields["data"] = obj
+    return _da_max(ex, o, args, kwargs, node, env, fr)
+
+
+METHODS[("Arr", "call:max")] = _arr_max
 
 
 def _da_set_data(ex, base, node, env, fr):
